@@ -420,10 +420,13 @@ def judge(cls, obj, target, label):
     else:
         tag = reflect.TAG
         validator = None
+    extra_before = _extra_canon(obj)
     try:
         node = write(obj, tag)
     except Exception as ex:  # noqa: BLE001
         return [('write-raises', f'{type(ex).__name__}: {str(ex)[:200]}')], None
+    if _extra_canon(obj) != extra_before:
+        problems.append(('write-changed-the-value', f'{extra_before} -> {_extra_canon(obj)}'[:400]))
     if node is None:
         return [], None     # the class has no XML representation of its own (e.g. UnsubscribeResponse: empty body)
     xml1 = c14n(node)
@@ -452,6 +455,9 @@ def judge(cls, obj, target, label):
     a, b = norm(expected_canon(obj)), norm(canon.canon_obj(back))
     if a != b:
         problems.append(('round-trip-differs', _canon_diff(a, b)))
+    ea, eb = [(m, tuple(v[0] for v in vals)) for m, vals in extra_before], [(m, tuple(v[0] for v in vals)) for m, vals in _extra_canon(back)]
+    if ea != eb:
+        problems.append(('round-trip-differs', f'hand-written members: {ea} != {eb}'[:400]))
     # (3b) write the parsed value: same XML; the document it was parsed from stays as it was
     try:
         node2 = write(back, tag)
@@ -574,7 +580,40 @@ def deviations(cls, depth=2):
             out.append((f'{name}#{i}', name, val))
         if getattr(prop, 'is_optional', True) and not xsd_required(x) and prop.get_actual_value(proto) not in (None, []):
             out.append((f'{name}#absent', name, None))
+    for member, makers in EXTRA_MEMBERS.get(cls.__name__, {}).items():
+        for i, mk in enumerate(makers):
+            out.append((f'{member}#{i}', member, mk()))
     return out
+
+
+def _ref_param(i):
+    el = etree.Element(etree.QName('http://verif.example/ref', f'Ident{i}'), nsmap={'vr': 'http://verif.example/ref'})
+    el.text = f'id-{i} <&>'
+    el.set('flag', 'x')
+    if i:
+        etree.SubElement(el, etree.QName('http://verif.example/ref', 'Nested')).text = 'n'
+    return el
+
+
+# XML-relevant members that are not declared container properties (written / read by hand-written code)
+EXTRA_MEMBERS = {
+    'HeaderInformationBlock': {'reference_parameters': [lambda: [_ref_param(0)], lambda: [_ref_param(0), _ref_param(1)]]},
+}
+
+
+def _extra_canon(obj):
+    """Canonical form of the hand-written members: C14N text of every element, the wsa:IsReferenceParameter mark dropped."""
+    out = []
+    for member in EXTRA_MEMBERS.get(type(obj).__name__, {}):
+        vals = []
+        for el in getattr(obj, member) or []:
+            cp = copy.deepcopy(el)
+            for a in list(cp.attrib):
+                if a.endswith('}IsReferenceParameter'):
+                    del cp.attrib[a]
+            vals.append((etree.tostring(cp, method='c14n', exclusive=True), el.getparent() is not None))
+        out.append((member, tuple(vals)))
+    return tuple(out)
 
 
 def apply(cls, devs):
